@@ -78,6 +78,9 @@ SCENARIOS = {
     # different requests before (whatever the package remembers per sort field, per expression, ... has grown large)
     'sortspec': dict(
         src='<dtml-in seq sort="x/cf,y/cmp"><dtml-var x></dtml-in>|<dtml-in seq sort_expr="sx"><dtml-var y>,</dtml-in>', served=130),
+    # a markup format (structured text) of a per-thread document, again in a process that has formatted many documents before
+    'stx': dict(
+        src='<dtml-var doc fmt=structured-text>|<dtml-in seq><dtml-var x></dtml-in>', served=101, serve='stx'),
     'epfs': dict(
         src='%(in seq sort_expr="key")[%(x)s,%(in)]%(if a)[A%(else)[B%(if)]%(a)05d', epfs=True),
 }
@@ -94,9 +97,16 @@ def _cf_desc(a, b):
 _served = {}
 
 
-def serve_requests(n):
-    """n earlier requests with sort specifications of their own, rendered by another template of the process"""
+def serve_requests(n, what='sort'):
+    """n earlier requests with sort specifications (documents to format) of their own, rendered by another template of the process"""
     from DocumentTemplate.DT_HTML import HTML
+    if what == 'stx':
+        t = _served.get('stx')
+        if t is None:
+            t = _served['stx'] = HTML('<dtml-var doc fmt=structured-text>')
+        for d in range(n):
+            t(doc='earlier document %d' % d)
+        return
     t = _served.get('t')
     if t is None:
         t = _served['t'] = HTML('<dtml-in seq sort_expr="sx"><dtml-var x></dtml-in>')
@@ -109,7 +119,7 @@ def namespace(name, i):
     seq = [O(x=1, y=3, w=i), O(x=2, y=2, w=0), O(x=3, y=1, w=i)]
     ns = {'seq': seq, 'key': 'x' if i % 2 == 0 else 'y', 'rev': i % 2 == 0, 'a': i, 'o': O(p='p%d' % i), 'st': 1 + i % 2,
           'emp': [], 'w': i, 'who': 'bob_&_%s\n\'%d\'' % ('ab'[i % 2], i),
-          'cf': _cf_asc if i % 2 == 0 else _cf_desc, 'sx': 'y/cf,x/cmp/desc' if i % 2 == 0 else 'x/cf,y'}
+          'doc': 'Report %d\n\n  the *%d*th thread' % (i, i), 'cf': _cf_asc if i % 2 == 0 else _cf_desc, 'sx': 'y/cf,x/cmp/desc' if i % 2 == 0 else 'x/cf,y'}
     if name == 'batch':
         ns['seq'] = ['ab%d' % i, 'cd%d' % i, 'ef%d' % i]
         ns['seq'] = [s for s in ns['seq']]
@@ -141,7 +151,7 @@ class Setup:
         self.name = name
         self.cooked = cooked
         if sc.get('served'):
-            serve_requests(sc['served'])
+            serve_requests(sc['served'], sc.get('serve', 'sort'))
 
     def job(self, i):
         ns = namespace(self.name, i)
